@@ -3,6 +3,7 @@ use crate::common::Args;
 pub mod c02;
 pub mod c03;
 pub mod c06;
+pub mod c08;
 pub mod c11;
 pub mod c11_l2;
 pub mod c14;
@@ -13,6 +14,7 @@ pub fn dispatch(args: &Args) -> i32 {
         "C02" => c02::run(args),
         "C03" => c03::run(args),
         "C06" => c06::run(args),
+        "C08" => c08::run(args),
         "C11" => c11::run(args),
         "C14" => c14::run(args),
         other => {
